@@ -9,7 +9,7 @@ The text outputs are parsed back and every printed row is looked up *by model na
 
 Model side: driver `filtertable` (= `prepTable` + `filterTableAdd`) predicts, for the selected fit names, which
 row of the parameter file is shown in each line and which additional values are attached; `ranges`
-(= `paramRanges`) predicts min / best / max; `counts` predicts n_data / n_fits.
+(= `paramRanges`) predicts min / best / max; `parcounts` (= `counts`) predicts n_data / n_fits.
 """
 import math
 import os
@@ -494,7 +494,7 @@ def model_side(case, obs):
                 trip.append(None)
             else:
                 trip.append([float(tt.rat()) for _ in range(3)])
-        tc = drv.ask('counts %d %s %d' % (len(r['flags']), ' '.join(str(f) for f in r['flags']), k))
+        tc = drv.ask('parcounts %d %s %d' % (len(r['flags']), ' '.join(str(f) for f in r['flags']), k))
         res.append(dict(pos=pos, names=nm, rows=rows, trip=trip, n_data=tc.nat(), n_fits=tc.nat()))
     return res
 
